@@ -139,7 +139,13 @@ TObs ==
   /\ pend' = [pend EXCEPT ![Ev.t] = Idle]
   /\ UNCHANGED <<nreg, live>>
 
-TNext == TReset \/ TOp \/ TNewRegion \/ TAlloc \/ TAllocFail \/ TFree \/ TObs
+\* events of other vocabularies (compiler exits, API projections ...) stutter;
+\* Crash is in this vocabulary and has no action
+Vocabulary == {"Reset", "Op", "NewRegion", "Alloc", "AllocFail", "Free", "Obs", "Crash"}
+TSkip == /\ l <= Len(TraceLog) /\ Ev.e \notin Vocabulary
+         /\ l' = l + 1 /\ UNCHANGED <<nreg, live, pend>>
+
+TNext == TSkip \/ TReset \/ TOp \/ TNewRegion \/ TAlloc \/ TAllocFail \/ TFree \/ TObs
 
 TSpec == TInit /\ [][TNext]_tvars
 
